@@ -134,6 +134,49 @@ CHECKS = {
         design_ref="DESIGN.md section 4 (C18), section 10",
         note="Record-level model: MC_Xmap.",
     ),
+    "C05": dict(
+        engine="tlc-pipeline",
+        technique="TLC model checking of Pipeline.tla / Worker.tla (filter, resolve, mode dispatch, best-candidate "
+                  "choice on abstract rows) + TLC batch validation of the files of the four modes and of the "
+                  "candidates and seed peaks recorded inside the worker",
+        text="TLC exhausts filter / resolve / mode dispatch for every set of first- and second-pass rows of two "
+             "queries and every join outcome (C05 file clauses), and the worker's peak selection / best-candidate "
+             "choice; end to end the four modes run on generated inputs (peaksCount 1,2,3,5; repetitive references), "
+             "a harness Extension records candidates and seed peaks inside the worker, and TLC checks one record per "
+             "query, ascending ids, best-mode coverage, that the first-pass record is a maximal candidate and that "
+             "the refined seeds are the top-peaksCount primary peaks.",
+        design_ref="DESIGN.md section 4 (C05), section 10",
+        note="The correlation that produces the peaks is numerical and not modelled; its outcome is observed.",
+    ),
+    "C07": dict(
+        engine="tlc-pipeline",
+        technique="TLC model checking with every partial operation an explicit Abort action (Worker.tla, "
+                  "Resolver/AlignCore) + fault-free exploration of degenerate CMAP inputs through the real "
+                  "pipeline (in process and CLI) with TLC comparing the ordinary queries' records (Trace_SameFiles)",
+        text="MC_Worker shows that the repaired worker never aborts when no peak is selected (and that the pinned "
+             "one did); degenerate but valid CMAP sets (1-2 label molecules, duplicate positions, queries longer "
+             "than every reference, 1-2 label references, inputs without alignable queries, dense/sparse molecules) "
+             "run in five modes with six parameter vectors, in process and through the CLI: any exception or "
+             "non-zero exit is a violation, every file must be well formed and readable by the project's reader, "
+             "and TLC checks that the records of the ordinary queries equal those of a run without the degenerate "
+             "molecules.",
+        design_ref="DESIGN.md section 4 (C07), section 10",
+        note="'Well-formed' = the documented CMAP format with at least one label row and an end-marker per molecule.",
+    ),
+    "C08": dict(
+        engine="tlc-pipeline",
+        technique="TLC model checking of Pipeline.tla (mode dispatch on abstract rows, every join outcome) + TLC "
+                  "batch validation of the nine files the four modes write for one input (Trace_Pipeline)",
+        text="TLC exhausts the dispatch for two queries (C08 file relations hold for every join outcome); end to "
+             "end, inputs built to be aligned in two passes (split / swapped / duplicated windows, indels, chimeras, "
+             "half-junk) run in best/separate/joined/all with four maxDifference values and TLC checks file "
+             "equalities, AlignedRest flags, the accounting of single-pass records, that every joined record has a "
+             "first- and a second-pass part on the same reference and strand within maxDifference, that its pairs "
+             "are a subset of the union and equal to it when the union is a valid matching; the dispatch is replayed "
+             "from all._1/all._2 for drift.",
+        design_ref="DESIGN.md section 4 (C08), section 10",
+        note="Records are compared as independently parsed text fields.",
+    ),
 }
 
 NOT_YET = "check not built yet in this round; planned per DESIGN.md section 4 (no technique switch)"
@@ -184,6 +227,8 @@ def main():
              "kind_free_text": "MC_Xmap, Trace_Xmap; harness/props/c02.py, c18.py, pipe_common.py"},
             {"name": "tlc-vectorise", "path": "spec/Vectorise.tla", "serves_properties": ["C16"],
              "kind_free_text": "MC_Vectorise, Trace_Vectorise; harness/props/c16.py"},
+            {"name": "tlc-pipeline", "path": "spec/Pipeline.tla", "serves_properties": ["C05", "C07", "C08"],
+             "kind_free_text": "Pipeline.tla, Worker.tla, MC_Pipeline, MC_Worker, Trace_Pipeline, Trace_SameFiles; harness/props/c05.py, c07.py, c08.py"},
             {"name": "tlc-row", "path": "spec/Row.tla", "serves_properties": ["C03"],
              "kind_free_text": "TLA+ spec (MC_/Export_/Trace_ configs) checked with TLC; harness/props/c03.py"},
         ],
